@@ -11,7 +11,7 @@ From Coq Require Import ZArith List Bool.
 Import ListNotations.
 Local Open Scope Z_scope.
 
-Inductive abi_id := SysV64 | Win64 | Cdecl32 | Stdcall32 | Fastcall32 | Thiscall32 | Aapcs64 | Apple64.
+Inductive abi_id := SysV64 | Win64 | Vectorcall64 | Cdecl32 | Stdcall32 | Fastcall32 | Thiscall32 | Regparm32 (n : nat) | Aapcs64 | Apple64.
 
 (* ------------------------------------------------------------------ C types behind the TypeIds *)
 Definition inr_ (x a b : Z) : bool := (a <=? x) && (x <=? b).
@@ -38,7 +38,8 @@ Definition abi_bytes (t : Z) : Z :=
 Definition round_up (x a : Z) : Z := ((x + a - 1) / a) * a.
 
 (* an argument as the ABI sees it after decomposition: on 32-bit targets a 64-bit integer is two 32-bit words, low first *)
-Record comp := mkComp { c_ty : Z; c_half : bool }.
+(* c_half: one of the two 32-bit words of a 64-bit integer; c_lo: the low word (it comes first) *)
+Record comp := mkComp { c_ty : Z; c_half : bool; c_lo : bool }.
 Inductive acls := KInt | KSse | KMem.
 Definition acls_eqb (a b : acls) : bool :=
   match a, b with KInt, KInt => true | KSse, KSse => true | KMem, KMem => true | _, _ => false end.
@@ -75,7 +76,10 @@ Definition count_cls (q : seqabi) (va : bool) (k : acls) (pre : list comp) : Z :
 (* the register of a component: the n-th component of its class gets the n-th register of the class, if there is one *)
 Definition seq_reg (q : seqabi) (va : bool) (pre : list comp) (c : comp) : option (Z * Z) :=
   match q_cls q va c with
-  | KInt => match nth_error (q_int_regs q) (Z.to_nat (count_cls q va KInt pre)) with
+  | KInt => (* a 64-bit integer is never split between a register and the stack: its low word takes a register only if the
+               high word gets the next one *)
+            if c_lo c && negb (count_cls q va KInt pre + 2 <=? Z.of_nat (length (q_int_regs q))) then None else
+            match nth_error (q_int_regs q) (Z.to_nat (count_cls q va KInt pre)) with
             | Some r => Some (q_int_rt q (c_ty c), r) | None => None end
   | KSse => match nth_error (q_vec_regs q) (Z.to_nat (count_cls q va KSse pre)) with
             | Some r => Some (q_vec_rt q (c_ty c), r) | None => None end
@@ -111,7 +115,7 @@ Definition sysv_align (c : comp) : Z :=
   let t := c_ty c in if t_f80 t then 16 else if t_v128 t then 16 else if t_v256 t then 32 else if t_v512 t then 64 else 8.
 Definition x86_int_rt (t : Z) : Z := if abi_bytes t <=? 4 then Gp32 else Gp64.
 Definition x86_vec_rt (t : Z) : Z := if t_v256 t then Ymm else if t_v512 t then Zmm else Xmm.
-Definition whole (t : Z) : list comp := [mkComp t false].
+Definition whole (t : Z) : list comp := [mkComp t false false].
 Definition sysv_univ (t : Z) : bool :=
   t_int t || t_f32 t || t_f64 t || t_f80 t || t_mask t || t_m64 t || t_v32 t || t_v64 t || t_v128 t || t_v256 t || t_v512 t.
 Definition q_sysv : seqabi :=
@@ -119,7 +123,7 @@ Definition q_sysv : seqabi :=
 
 (* ---- i386: cdecl / stdcall / fastcall (GNU i386 psABI for vectors; the Microsoft conventions for the integer registers) *)
 Definition i386_expand (t : Z) : list comp :=
-  if inr_ t 40 41 then [mkComp 39 true; mkComp (t - 2) true] else [mkComp t false].
+  if inr_ t 40 41 then [mkComp 39 true true; mkComp (t - 2) true false] else [mkComp t false false].
 Definition i386_cls (regs : bool) (va : bool) (c : comp) : acls :=
   let t := c_ty c in
   if t_int t then (if c_half c || va || negb regs then KMem else KInt)    (* 64-bit integers never travel in ECX/EDX *)
@@ -129,6 +133,13 @@ Definition i386_slot (c : comp) : Z := round_up (abi_bytes (c_ty c)) 4.
 Definition i386_align (c : comp) : Z :=
   let t := c_ty c in if t_v128 t then 16 else if t_v256 t then 32 else if t_v512 t then 64 else 4.
 Definition i386_univ (t : Z) : bool := t_int t || t_f32 t || t_f64 t || t_f80 t || t_v128 t || t_v256 t || t_v512 t.
+(* GNU regparm(n): the first n of EAX, EDX, ECX carry integer arguments; a 64-bit integer takes two consecutive ones or goes to the
+   stack as a whole (after which no register is used any more: the words still count); nothing travels in registers when variadic *)
+Definition regparm_cls (va : bool) (c : comp) : acls :=
+  let t := c_ty c in
+  if t_int t then (if va then KMem else KInt)
+  else if t_v128 t || t_v256 t || t_v512 t then (if va then KMem else KSse)
+  else KMem.
 Definition q_i386 (int_regs : list Z) : seqabi :=
   mkSeq 4 int_regs [0; 1; 2] (i386_cls (negb (Nat.eqb (length int_regs) 0))) i386_slot i386_align x86_int_rt x86_vec_rt
         i386_expand i386_univ 1.
@@ -148,38 +159,45 @@ Definition apple_align (c : comp) : Z := abi_bytes (c_ty c).
 Definition q_apple64 : seqabi :=
   mkSeq 8 [0;1;2;3;4;5;6;7] [0;1;2;3;4;5;6;7] a64_cls apple_slot apple_align a64_int_rt a64_vec_rt whole a64_univ 8.
 
+Definition q_regparm (n : nat) : seqabi :=
+  mkSeq 4 (firstn n [0; 2; 1]) [0; 1; 2] regparm_cls i386_slot i386_align x86_int_rt x86_vec_rt i386_expand i386_univ 1.
+
 Definition seq_of (a : abi_id) : option seqabi :=
   match a with
   | SysV64 => Some q_sysv | Cdecl32 => Some (q_i386 []) | Stdcall32 => Some (q_i386 []) | Fastcall32 => Some (q_i386 [1; 2])
-  | Thiscall32 => Some (q_i386 [1])                      (* Microsoft: `this` (the first integer argument) in ECX *)
-  | Aapcs64 => Some q_aapcs64 | Apple64 => Some q_apple64 | Win64 => None
+  | Thiscall32 => Some (q_i386 [1])
+  | Regparm32 n => Some (q_regparm n)                      (* Microsoft: `this` (the first integer argument) in ECX *)
+  | Aapcs64 => Some q_aapcs64 | Apple64 => Some q_apple64 | Win64 | Vectorcall64 => None
   end.
 
 (* ------------------------------------------------------------------ Microsoft x64: positional *)
 Definition win_univ (t : Z) : bool := t_int t || t_f32 t || t_f64 t || t_mask t || t_m64 t || t_v128 t || t_v256 t || t_v512 t.
 Definition win_gp : list Z := [1; 2; 8; 9].        (* rcx rdx r8 r9 *)
-(* argument number i (0-based) owns the i-th register of its kind and the home slot 8*i *)
-Definition win_arg (i : Z) (t : Z) : aloc :=
+(* argument number i (0-based) owns the i-th register of its kind and the home slot 8*i.  __vectorcall (vc): six vector registers,
+   and vector types travel by value in XMM/YMM/ZMM<i> when i < 6 (homogeneous vector aggregates do not exist among the TypeIds) *)
+Definition win_nvec (vc : bool) : Z := if vc then 6 else 4.
+Definition win_arg (vc : bool) (i : Z) (t : Z) : aloc :=
   if t_int t || t_mask t || t_m64 t then                      (* integers; __m64 travels as a 64-bit integer *)
     (if i <? 4 then L_reg (if (abi_bytes t <=? 4) && negb (t_m64 t) then Gp32 else Gp64) (nth (Z.to_nat i) win_gp 0) else L_stack (8 * i))
   else if t_f32 t || t_f64 t then
-    (if i <? 4 then L_reg Xmm i else L_stack (8 * i))
+    (if i <? win_nvec vc then L_reg Xmm i else L_stack (8 * i))
+  else if vc && (i <? 6) then L_reg (x86_vec_rt t) i          (* __vectorcall: __m128 / __m256 / __m512 by value *)
   else                                                          (* __m128 and wider: by reference, the pointer is an integer *)
     (if i <? 4 then L_reg_ref Gp64 (nth (Z.to_nat i) win_gp 0) else L_stack_ref (8 * i)).
-Fixpoint win_args (i : Z) (ts : list Z) : list (list aloc) :=
-  match ts with [] => [] | t :: r => [win_arg i t] :: win_args (i + 1) r end.
+Fixpoint win_args (vc : bool) (i : Z) (ts : list Z) : list (list aloc) :=
+  match ts with [] => [] | t :: r => [win_arg vc i t] :: win_args vc (i + 1) r end.
 Definition win_stack_size (n : Z) : Z := 8 * Z.max n 4.   (* the caller always provides the 32-byte home area *)
 
 (* ------------------------------------------------------------------ return values (one scalar / vector value) *)
 Definition abi_ret (a : abi_id) (t : Z) : list aloc :=
   if t =? 0 then [] else
   match a with
-  | SysV64 | Win64 =>
+  | SysV64 | Win64 | Vectorcall64 =>
       if t_int t || t_mask t then [L_reg (if abi_bytes t <=? 4 then Gp32 else Gp64) 0]
       else if t_f80 t then [L_reg StReg 0]
-      else if t_m64 t then (match a with Win64 => [L_reg Gp64 0] | _ => [L_reg Xmm 0] end)
+      else if t_m64 t then (match a with SysV64 => [L_reg Xmm 0] | _ => [L_reg Gp64 0] end)
       else [L_reg (x86_vec_rt t) 0]
-  | Cdecl32 | Stdcall32 | Fastcall32 | Thiscall32 =>
+  | Cdecl32 | Stdcall32 | Fastcall32 | Thiscall32 | Regparm32 _ =>
       if inr_ t 40 41 then [L_reg Gp32 0; L_reg Gp32 2]        (* EDX:EAX *)
       else if t_int t then [L_reg Gp32 0]
       else if t_f32 t || t_f64 t || t_f80 t then [L_reg StReg 0]
@@ -191,8 +209,8 @@ Definition abi_ret (a : abi_id) (t : Z) : list aloc :=
 Definition ret_univ (a : abi_id) (t : Z) : bool :=
   (t =? 0) ||
   match a with
-  | SysV64 => sysv_univ t | Win64 => win_univ t || t_f80 t
-  | Cdecl32 | Stdcall32 | Fastcall32 | Thiscall32 => i386_univ t || t_m64 t
+  | SysV64 => sysv_univ t | Win64 | Vectorcall64 => win_univ t || t_f80 t
+  | Cdecl32 | Stdcall32 | Fastcall32 | Thiscall32 | Regparm32 _ => i386_univ t || t_m64 t
   | Aapcs64 | Apple64 => a64_univ t
   end.
 
@@ -204,10 +222,12 @@ Definition abi_consts (a : abi_id) : aconsts :=
   match a with
   | SysV64 => mkAC 128 0 16 false [3; 4; 5; 12; 13; 14; 15] [] [7; 6; 2; 1; 8; 9] [0; 1; 2; 3; 4; 5; 6; 7]
   | Win64 => mkAC 0 32 16 false [3; 4; 5; 6; 7; 12; 13; 14; 15] [6; 7; 8; 9; 10; 11; 12; 13; 14; 15] [1; 2; 8; 9] [0; 1; 2; 3]
+  | Vectorcall64 => mkAC 0 32 16 false [3; 4; 5; 6; 7; 12; 13; 14; 15] [6; 7; 8; 9; 10; 11; 12; 13; 14; 15] [1; 2; 8; 9] [0; 1; 2; 3; 4; 5]
   | Cdecl32 => mkAC 0 0 4 false [3; 4; 5; 6; 7] [] [] [0; 1; 2]
   | Stdcall32 => mkAC 0 0 4 true [3; 4; 5; 6; 7] [] [] [0; 1; 2]
   | Fastcall32 => mkAC 0 0 4 true [3; 4; 5; 6; 7] [] [1; 2] [0; 1; 2]
   | Thiscall32 => mkAC 0 0 4 true [3; 4; 5; 6; 7] [] [1] [0; 1; 2]
+  | Regparm32 n => mkAC 0 0 4 false [3; 4; 5; 6; 7] [] (firstn n [0; 2; 1]) [0; 1; 2]
   (* x18 is the platform register (reserved), x19..x28 callee-saved, x29 frame pointer, x30 link register; v8..v15 (low halves) *)
   | Aapcs64 | Apple64 => mkAC 0 0 16 false [18; 19; 20; 21; 22; 23; 24; 25; 26; 27; 28; 29; 30] [8; 9; 10; 11; 12; 13; 14; 15]
                                [0;1;2;3;4;5;6;7] [0;1;2;3;4;5;6;7]
@@ -218,9 +238,10 @@ Definition abi_of (arch : Z) (win darwin : bool) (ccid : Z) : option abi_id :=
   if arch =? 0 then
     (if ccid =? 0 then Some Cdecl32 else if ccid =? 1 then Some Stdcall32 else if ccid =? 2 then Some Fastcall32
      else if ccid =? 4 then Some (if win then Thiscall32 else Cdecl32)      (* GNU targets treat __thiscall like cdecl *)
+     else if ccid =? 5 then Some (Regparm32 1) else if ccid =? 6 then Some (Regparm32 2) else if ccid =? 7 then Some (Regparm32 3)
      else None)
   else if arch =? 1 then
-    (if ccid =? 32 then Some SysV64 else if ccid =? 33 then Some Win64
+    (if ccid =? 32 then Some SysV64 else if ccid =? 33 then Some Win64 else if ccid =? 3 then Some Vectorcall64
      else if (ccid =? 0) || (ccid =? 1) || (ccid =? 2) || (ccid =? 4) then Some (if win then Win64 else SysV64)
      else None)
   else if arch =? 2 then
@@ -232,7 +253,7 @@ Record abi_answer := mkAns { an_args : list (list aloc); an_rets : list aloc; an
 Definition abi_spec (a : abi_id) (va : bool) (ret : Z) (args : list Z) : abi_answer :=
   match seq_of a with
   | Some q => let '(ls, n) := seq_args q va [] 0 args in mkAns ls (abi_ret a ret) (round_up n (q_round q))
-  | None => mkAns (win_args 0 args) (abi_ret a ret) (win_stack_size (Z.of_nat (length args)))
+  | None => mkAns (win_args (match a with Vectorcall64 => true | _ => false end) 0 args) (abi_ret a ret) (win_stack_size (Z.of_nat (length args)))
   end.
 
 (* ------------------------------------------------------------------ guards: where the pinned implementation is known to deviate.
@@ -241,7 +262,7 @@ Definition abi_spec (a : abi_id) (va : bool) (ret : Z) (args : list Z) : abi_ans
 Definition guard_type (a : abi_id) (t : Z) : bool :=
   match a with
   | SysV64 => negb (t_mask t || t_m64 t || t_f80 t)
-  | Win64 => negb (t_mask t)
+  | Win64 | Vectorcall64 => negb (t_mask t)
   | _ => true
   end.
 (* G-slot: the stack slot of the component equals its own size, integers widened to a word (7.5: a float on the stack takes 4
@@ -252,10 +273,10 @@ Definition own_size (a : abi_id) (c : comp) : Z :=
   let b := abi_bytes (c_ty c) in
   match a with
   | SysV64 => if t_int (c_ty c) then Z.max b 8 else b
-  | Cdecl32 | Stdcall32 | Fastcall32 | Thiscall32 => if t_int (c_ty c) then Z.max b 4 else b
+  | Cdecl32 | Stdcall32 | Fastcall32 | Thiscall32 | Regparm32 _ => if t_int (c_ty c) then Z.max b 4 else b
   | Aapcs64 => Z.max b 8
   | Apple64 => Z.max b 4
-  | Win64 => 8
+  | Win64 | Vectorcall64 => 8
   end.
 Definition guard_comp (a : abi_id) (q : seqabi) (va : bool) (pre : list comp) (nsaa : Z) (c : comp) : bool :=
   match seq_reg q va pre c with
@@ -281,11 +302,7 @@ Fixpoint guard_args (a : abi_id) (q : seqabi) (va : bool) (pre : list comp) (nsa
   end.
 (* G-va: variadic functions whose convention changes for variadic calls and the implementation ignores it (Apple: variadic
    arguments on the stack; fastcall: no register arguments) *)
-Definition guard_va (a : abi_id) (va : bool) : bool := match a with Apple64 | Fastcall32 | Thiscall32 => negb va | _ => true end.
-(* G-win (7.29): no by-reference vector among the first four Win64 arguments (its register still advances the stack offset) *)
-Fixpoint guard_win (i : Z) (ts : list Z) : bool :=
-  match ts with [] => true | t :: r => (negb (i <? 4) || negb (t_v128 t || t_v256 t || t_v512 t)) && guard_win (i + 1) r end.
-
+Definition guard_va (a : abi_id) (va : bool) : bool := match a with Apple64 | Fastcall32 | Thiscall32 | Regparm32 _ => negb va | _ => true end.
 Definition univ_of (a : abi_id) (t : Z) : bool :=
   match seq_of a with Some q => q_univ q t | None => win_univ t end.
 
@@ -293,5 +310,5 @@ Definition abi_guard (a : abi_id) (va : bool) (ret : Z) (args : list Z) : bool :
   forallb (fun t => inr_ t 0 255 && univ_of a t && guard_type a t) args && inr_ ret 0 255 && ret_univ a ret && guard_type a ret && guard_va a va &&
   match seq_of a with
   | Some q => guard_args a q va [] 0 args
-  | None => guard_win 0 args
+  | None => true
   end.
